@@ -125,4 +125,6 @@ func (module *InMemoryStorage) VerifStart(workers, queueDepth int) error {
 func (module *InMemoryStorage) VerifStop() error { return module.Stop() }
 
 // VerifChannel is the module's request channel (what the storage coordinator forwards to).
-func (module *InMemoryStorage) VerifChannel() chan *protocol.StorageRequest { return module.requestChannel }
+func (module *InMemoryStorage) VerifChannel() chan *protocol.StorageRequest {
+	return module.requestChannel
+}
